@@ -6,7 +6,8 @@ _MODES = [("mldsa44", "./sign/mldsa/mldsa44"), ("mldsa65", "./sign/mldsa/mldsa65
           ("mode2", "./sign/dilithium/mode2"), ("mode3", "./sign/dilithium/mode3"), ("mode5", "./sign/dilithium/mode5")]
 SPEC = {
     "bins": [
-        # black-box: transcripts (pk, sk, signature bytes) and Verify verdicts against ref/mldsa, AVX2 on and off
+        # black-box: transcripts (pk, sk, signature bytes) and Verify verdicts against ref/mldsa, AVX2 on and off;
+        # TestC04Concurrent: the same outputs under 8 goroutines per scheme
         {"name": "c04", "pkg": "./zz_verif/c04", "run": "^TestC04(Transcript|Verdict|Concurrent)$", "configs": _CFG2,
          "shards": {"quick": 2, "thorough": 16}},
         {"name": "c04-purego", "pkg": "./zz_verif/c04", "run": "^TestC04(Transcript|Verdict|Concurrent)$", "configs": _PUREGO, "tiers": ["thorough"],
@@ -31,7 +32,7 @@ SPEC = {
             "z-norm, r0-norm, ct0-overflow, hint-weight>omega; rare paths are additionally searched for with the reference signer: hint weight > omega, "
             "final hint weight == omega, >= 15 rounds), (b) a strictness probe: a signature made with the real secret key that is valid except for exactly "
             "one rule (||z||_inf == gamma1-beta, swapped / duplicated hint indices, non-zero hint padding, decreasing or oversized switch-over byte, flipped "
-            "c~ bit, trailing bytes, truncation) or valid with the extreme norm gamma1-beta-1, (c) a hint encoding that decodes successfully, a sampler input "
+            "c~ bit, trailing bytes, truncation, a context of 256..1100 bytes presented with the signature that the wrapped 1-byte length would make valid) or valid with the extreme norm gamma1-beta-1, (c) a hint encoding that decodes successfully, a sampler input "
             "(incl. inputs found by scanning with the reference's XOF byte counters: a 23-bit candidate exactly on the rejection boundary q / q-1, the (seed, nonce) "
             "pairs and key seeds xi from the far tail of the rejection count, in particular every ExpandS call that needs a third SHAKE-256 block). Distinct by FNV-64 of (sub-check, seed, message, ctx, "
             "alteration, signature). Enumerated points of the rounding sweeps are counted as evaluations only.",
